@@ -483,13 +483,17 @@ bool DependencyScan::RecomputeNodeDirty(Node* node, std::vector<Node*>* stack,
   // date outputs, etc.  Visit all outputs and determine whether they're dirty.
   RecomputeOutputsDirtyCache recomputeOutputsDirty(build_log(), explanations_,
                                                 edge);
+  // An edge that is dirty only because of its inputs can become clean again
+  // when a restat rule leaves those inputs untouched (Plan::CleanNode); its
+  // discovered deps must be known for that decision.
+  bool outputs_dirty = false;
   if (!dirty)
-    dirty = recomputeOutputsDirty.all(most_recent_input);
+    dirty = outputs_dirty = recomputeOutputsDirty.all(most_recent_input);
 
   if (!edge_deps_loaded) {
     // only try to load the deps log if no rebuild is necessary
     // if an rebuild is necessary the deps log is outdated for this target
-    if (!dirty) {
+    if (!outputs_dirty) {
       // Load discovered deps.
       std::optional<EdgeInputsRange> new_deps = dep_loader_.LoadDeps(edge, err);
       if (!new_deps) {
